@@ -153,7 +153,7 @@ PROPS['C19']['scenarios'].append(('genesis', 600, 6000, ''))
 PROPS['C20']['scenarios'].append(('genesis', 600, 6000, ''))
 for _pid in ('C18', 'C19', 'C20'):
     PROPS[_pid]['scenarios'].append(('batch', 1200, 6000, ''))
-PROPS['C18'].setdefault('thorough_reps', 12)
+PROPS['C18'].setdefault('thorough_reps', 8)
 for _scn, _arg in [('recvmatrix', ''), ('depmatrix', ''), ('replace', ''), ('roles', 'lifecycle'), ('nonces', ''), ('faults', '')]:
     PROPS['C18']['scenarios'].append((_scn, 500, 4000, _arg))
 PROPS['C20'].setdefault('thorough_reps', 12)
